@@ -56,6 +56,7 @@ var functions = []fnSpec{
 	{"ShellJob", "Stderr"},
 	{"ShellJob", "JobStatus"},
 	{"", "NewCurlJobWithOptions"},
+	{"CurlJob", "do"}, // the helper of Execute that holds the critical section (must precede its caller)
 	{"CurlJob", "Execute"},
 	{"CurlJob", "JobStatus"},
 	{"CurlJob", "DumpResponse"},
@@ -76,7 +77,7 @@ func (t *translator) translateFunc(spec fnSpec) {
 	t.rcount, t.pre = 0, nil
 	t.cmdVars, t.ranCmd, t.attached = map[types.Object]bool{}, map[types.Object]bool{}, map[string]bool{}
 	t.pure = spec.recv == ""
-	t.mutates, t.mayPanic = false, false
+	t.mutates, t.mayPanic, t.deferred = false, false, false
 	t.topLevel = map[ast.Stmt]bool{}
 	for _, s := range fd.Body.List {
 		t.topLevel[s] = true
@@ -224,8 +225,17 @@ func (t *translator) translateFunc(spec fnSpec) {
 		note += "\nAssigns fields of its receiver: the updated receiver is returned."
 	}
 	if t.mayPanic {
-		note += "\nCalls user code, which may panic: `CallResult.panicked` = the panic leaves the function at that point (there is no `defer` here)."
+		if t.deferred {
+			note += "\nCalls user code, which may panic: `CallResult.panicked` = the panic leaves the function at that point; the deferred unlock is recorded first (Go runs deferred calls while the panic unwinds)."
+		} else {
+			note += "\nCalls user code, which may panic: `CallResult.panicked` = the panic leaves the function at that point (there is no `defer` here)."
+		}
 	}
+	np := 0
+	for _, f := range fd.Type.Params.List {
+		np += len(f.Names)
+	}
+	t.done[leanName] = &doneFn{mutates: t.mutates, mayPanic: t.mayPanic, resTypes: append([]string(nil), t.resTypes...), nparams: np}
 	t.defs = append(t.defs, fmt.Sprintf("/-- %s%s -/\ndef %s %s: %s :=\n%s\n", doc, note, leanName, hdr, tupleType(resParts), ind(body)))
 	t.report = append(t.report, jsonFn{Go: leanName, Lean: leanName, Pos: t.jb.pos(fd), Kind: kind, OK: true})
 }
@@ -313,7 +323,10 @@ Lean 4 translation of the built-in jobs of go-quartz, regenerated from the worki
 * ` + "`defer <mutex>.Unlock()`" + ` among the top-level statements of a method: the statements after it run, the results of a ` + "`return`" + ` are
   evaluated (` + "`retN`" + `), then the deferred event is recorded — on every exit.
 * Calls of user code (` + "`f.function`, the callbacks, `httpClient.Do`, `Body.Close`" + `) may panic: they return a ` + "`CallResult`" + ` and the
-  ` + "`.panicked`" + ` branch leaves the method at that point with ` + "`CallResult.panicked`" + ` (none of the three Execute methods defers anything).
+  ` + "`.panicked`" + ` branch leaves the method at that point with ` + "`CallResult.panicked`" + `; when the method has deferred an unlock, the deferred
+  event is recorded on that path as well (Go runs deferred calls while a panic unwinds), then the panic reaches the caller.
+* A call of another method of the same receiver (` + "`cu.do(ctx)`" + `) applies that method's translated definition to the current state and
+  receiver; the receiver it returns replaces the current one (also when it panics), a ` + "`.panicked`" + ` result leaves the caller too.
 
 ## Modelled, not translated (explicit state-passing externals)
 * ` + "`FnExt W R`" + `: ` + "`function`" + ` = the user's ` + "`Function[R]`" + ` called with the context.
